@@ -4,6 +4,7 @@ import (
 	"bytes"
 	"fmt"
 	"io/fs"
+	"path/filepath"
 	"reflect"
 	"sort"
 	"strings"
@@ -355,6 +356,90 @@ func c13ConfigRoute(c *Ctx, fam *report.Family, mk func() *nfpm.Config, in map[s
 	overrideCase(c, fam, &parsed, in2)
 }
 
+// c13TaggedContents: "content entries addressed to a packager never appear in another format's package" – decided on
+// the packages: every entry type x every packager tag, once without any override block and once with a block for the
+// format being built that sets an unrelated field (Config.Get filters contents itself only in that case).
+func c13TaggedContents(c *Ctx) error {
+	fam := c.Rep.Family("tagged-contents-in-packages", "exhaustive: every entry type (file, config, config|noreplace, dir, symlink, tree, ghost, doc, licence, license, readme) x every packager tag (none + 5 formats) as one entry of a YAML configuration x {no override block, an override block for the built format that only sets homepage} x 5 formats: nfpm.Parse, Config.Get(format), Package, independent decoding; the entry is in the package iff it is addressed to that format (or to all) and its type exists there; non-trivial = the entry is tagged")
+	fam.Exhaustive = true
+	tree, err := MkTree(filepath.Join(c.Tmp, "c13src"), 0)
+	if err != nil {
+		return err
+	}
+	rpmOnly := map[string]bool{"ghost": true, "doc": true, "licence": true, "license": true, "readme": true}
+	types := []string{"", "config", "config|noreplace", "dir", "symlink", "tree", "ghost", "doc", "licence", "license", "readme"}
+	for _, ty := range types {
+		for _, tg := range append([]string{""}, Formats...) {
+			for _, withBlock := range []bool{false, true} {
+				var e strings.Builder
+				switch ty {
+				case "symlink":
+					e.WriteString("- src: /usr/bin/plain\n  dst: /etc/app/entry\n  type: symlink\n")
+				case "dir", "ghost":
+					fmt.Fprintf(&e, "- dst: /etc/app/entry\n  type: %s\n", ty)
+				case "tree":
+					fmt.Fprintf(&e, "- src: %s\n  dst: /etc/app/entry\n  type: tree\n", filepath.Join(tree.Root, "tree/sub"))
+				case "":
+					fmt.Fprintf(&e, "- src: %s\n  dst: /etc/app/entry\n", filepath.Join(tree.Root, "etc/app.conf"))
+				default:
+					fmt.Fprintf(&e, "- src: %s\n  dst: /etc/app/entry\n  type: %q\n", filepath.Join(tree.Root, "etc/app.conf"), ty)
+				}
+				if tg != "" {
+					fmt.Fprintf(&e, "  packager: %s\n", tg)
+				}
+				for _, f := range Formats {
+					doc := "name: verifpkg\narch: amd64\nplatform: linux\nversion: 1.2.3\nmaintainer: Verif <verif@example.com>\ndescription: verification package\n" +
+						"mtime: 2023-11-14T22:13:20Z\ncontents:\n- src: " + filepath.Join(tree.Root, "bin/tool") + "\n  dst: /usr/bin/plain\n" + e.String()
+					if withBlock {
+						doc += "overrides:\n  " + f + ":\n    homepage: https://example.com/" + f + "\n"
+					}
+					in := map[string]any{"entry_type": ty, "entry_packager": tg, "format": f, "override_block": withBlock, "document": doc}
+					key := fmt.Sprintf("%s|%s|%v|%s", ty, tg, withBlock, f)
+					cfg, perr := nfpm.Parse(strings.NewReader(doc))
+					if perr != nil {
+						fam.Eval(key, false)
+						fam.Count("parse-error")
+						continue
+					}
+					info, gerr := cfg.Get(f)
+					if gerr != nil {
+						fam.Eval(key, false)
+						fam.Count("get-error")
+						continue
+					}
+					data, berr := BuildPkg(f, nfpm.WithDefaults(info))
+					if berr != nil {
+						fam.Eval(key, false)
+						fam.Count("build-error")
+						continue
+					}
+					dec, derr := DecodePkg(f, data)
+					if derr != nil {
+						c.Rep.Note("tagged-contents: decode %s: %v", f, derr)
+						continue
+					}
+					fam.Eval(key, tg != "")
+					present := false
+					for _, m := range dec.Members {
+						n := "/" + strings.TrimLeft(strings.TrimPrefix(m.Name, "."), "/")
+						if n == "/etc/app/entry" || n == "/etc/app/entry/" || strings.HasPrefix(n, "/etc/app/entry/") {
+							present = true
+						}
+					}
+					want := (tg == "" || tg == f) && !(rpmOnly[ty] && f != "rpm")
+					fam.Count(fmt.Sprintf("%s:present=%v", f, present))
+					if present != want {
+						c.Rep.Find(report.Finding{Property: "C13", Family: "tagged-contents-in-packages", Shape: fmt.Sprintf("%s:entry-presence-differs:want=%v", f, want),
+							What:  fmt.Sprintf("entry of type %q addressed to %q: in the %s package = %v, expected %v", ty, tg, f, present, want),
+							Input: in})
+					}
+				}
+			}
+		}
+	}
+	return nil
+}
+
 func canonLeavesAnswer(a string) string {
 	toks := strings.Fields(a)
 	var parts []string
@@ -486,10 +571,38 @@ func runC13(c *Ctx) error {
 		}
 		overrideCase(c, fam2, cfg, map[string]any{"case": i, "blocks": blocks})
 	}
-	// validation rejects unknown override keys
-	cfg := &nfpm.Config{Info: nfpm.Info{Name: "p", Arch: "amd64", Version: "1.0.0"}, Overrides: map[string]*nfpm.Overridables{"nosuchformat": {}}}
-	if err := cfg.Validate(); err == nil {
-		c.Rep.Find(report.Finding{Property: "C13", Family: "override-random", Shape: "validate-accepts-unknown-override", What: "Validate accepted an override block for an unregistered format", Input: map[string]any{"overrides": "nosuchformat"}})
+	// ---- content entries addressed to a packager, in the packages themselves
+	if err := c13TaggedContents(c); err != nil {
+		return err
+	}
+	// validation rejects override blocks for names that are not registered packagers – also names that differ from a
+	// registered one only by letter case or blanks (Config.Get would never apply such a block)
+	famV := c.Rep.Family("override-block-names", "exhaustive: override blocks keyed by names that are not registered packagers (another word, each registered name in upper case, capitalised, with a trailing blank): Config.Validate and nfpm.Parse must reject them, nfpm.Get(name) must not hand out a packager for them; and for every registered name they must accept; non-trivial = always")
+	famV.Exhaustive = true
+	bad := []string{"nosuchformat", "tgz"}
+	for _, f := range Formats {
+		bad = append(bad, strings.ToUpper(f), strings.ToUpper(f[:1])+f[1:], f+" ")
+	}
+	for _, name := range bad {
+		famV.Eval("bad|"+name, true)
+		cfg := &nfpm.Config{Info: nfpm.Info{Name: "p", Arch: "amd64", Version: "1.0.0"}, Overrides: map[string]*nfpm.Overridables{name: {}}}
+		if err := cfg.Validate(); err == nil {
+			c.Rep.Find(report.Finding{Property: "C13", Family: "override-block-names", Shape: "validate-accepts-unknown-override", What: fmt.Sprintf("Validate accepted an override block for %q, which is not a registered packager", name), Input: map[string]any{"overrides": name}})
+		}
+		if _, err := nfpm.Get(name); err == nil {
+			c.Rep.Find(report.Finding{Property: "C13", Family: "override-block-names", Shape: "registry-hands-out-packager-for-unregistered-name", What: fmt.Sprintf("nfpm.Get(%q) returns a packager; Config.Get(%q) would package without the override block of the registered name", name, name), Input: map[string]any{"format": name}})
+		}
+		doc := fmt.Sprintf("name: p\narch: amd64\nversion: 1.0.0\noverrides:\n  %q:\n    homepage: https://example.com\n", name)
+		if _, err := nfpm.Parse(strings.NewReader(doc)); err == nil {
+			c.Rep.Find(report.Finding{Property: "C13", Family: "override-block-names", Shape: "parse-accepts-unknown-override", What: fmt.Sprintf("nfpm.Parse accepted an override block for %q", name), Input: map[string]any{"document": doc}})
+		}
+	}
+	for _, f := range Formats {
+		famV.Eval("good|"+f, true)
+		cfg := &nfpm.Config{Info: nfpm.Info{Name: "p", Arch: "amd64", Version: "1.0.0"}, Overrides: map[string]*nfpm.Overridables{f: {}}}
+		if err := cfg.Validate(); err != nil {
+			c.Rep.Find(report.Finding{Property: "C13", Family: "override-block-names", Shape: "validate-rejects-registered-override", What: fmt.Sprintf("Validate rejects the override block of the registered packager %s: %v", f, err), Input: map[string]any{"overrides": f}})
+		}
 	}
 	return nil
 }
